@@ -51,13 +51,15 @@ NA = {
         "deciding C16 (DESIGN section 4, C16)",
 }
 
+READY = {"C01", "C02", "C03"}
+
 def main():
     checks, na = [], []
     for pid in sorted(list(CLAIMS) + list(NA)):
         if pid in NA:
             na.append({"property_id": pid, "reason": NA[pid]})
             continue
-        if not os.path.exists(os.path.join(HERE, "msa", "props", pid.lower() + ".py")):
+        if pid not in READY or not os.path.exists(os.path.join(HERE, "msa", "props", pid.lower() + ".py")):
             na.append({"property_id": pid, "reason": "check not built yet (planned in DESIGN section 4); nothing is claimed until it runs"})
             continue
         text, ref = CLAIMS[pid]
